@@ -7,6 +7,24 @@ sys.path.insert(0, os.path.join(HERE, "lib"))
 import units, verus_run
 
 ready = set(json.load(open(os.path.join(HERE, "contracts", "ready.json"))))
+if "--summary" in sys.argv:
+    print("| id | level | Verus | Kani complete/modular | Kani bounded | decided (short) | not decided (short) |")
+    print("|---|---|---|---|---|---|---|")
+    tot = [0, 0, 0]
+    for pid in sorted(os.listdir(os.path.join(HERE, "contracts"))):
+        pj = os.path.join(HERE, "contracts", pid, "property.json")
+        if not os.path.exists(pj) or pid not in ready:
+            continue
+        p = json.load(open(pj))
+        mods, us = units.load_kani(pid)
+        nv = len(verus_run.load(pid))
+        nc = sum(1 for u in us if u.cls in ("complete", "modular") and getattr(u, "role", "contract") != "witness")
+        nb = sum(1 for u in us if u.cls == "bounded" and getattr(u, "role", "contract") != "witness")
+        tot[0] += nv; tot[1] += nc; tot[2] += nb
+        short = lambda t: (t[:330] + " ...") if len(t) > 334 else t
+        print("| %s | %s | %d | %d | %d | %s | %s |" % (pid, p.get("level"), nv, nc, nb, short(p.get("decided", "")).replace("|", "\\|"), short(p.get("undecided", "")).replace("|", "\\|")))
+    print("\nTotals: %d Verus units, %d Kani complete/modular units, %d Kani bounded units (witness units of known findings not counted)." % tuple(tot))
+    sys.exit(0)
 for pid in sorted(os.listdir(os.path.join(HERE, "contracts"))):
     pj = os.path.join(HERE, "contracts", pid, "property.json")
     if not os.path.exists(pj):
